@@ -46,6 +46,7 @@ where
                 Lazy_::Blackhole(..) => return Err(Error::Message("<<loop>>".into())),
                 Lazy_::Thunk(ref value) => Lazy_::Thunk(deep_cloner.deep_clone(value)?.unrooted()),
                 Lazy_::Value(ref value) => Lazy_::Value(deep_cloner.deep_clone(value)?.unrooted()),
+                Lazy_::Failed(ref err) => Lazy_::Failed(err.clone()),
             };
             let data: Box<dyn Userdata> = Box::new(Lazy {
                 value: Mutex::new(cloned_value),
@@ -72,6 +73,8 @@ enum Lazy_ {
     ),
     Thunk(Value),
     Value(Value),
+    /// The computation failed, every force reports the error again
+    Failed(String),
 }
 
 unsafe impl<T> Trace for Lazy<T> {
@@ -80,6 +83,7 @@ unsafe impl<T> Trace for Lazy<T> {
             Lazy_::Blackhole(..) => (),
             Lazy_::Thunk(value) => mark(value, gc),
             Lazy_::Value(value) => mark(value, gc),
+            Lazy_::Failed(_) => (),
         }
     }
 }
@@ -126,7 +130,7 @@ fn force(
                                 value.get_value(),
                             ) {
                                 Ok(value) => value,
-                                Err(err) => return RuntimeResult::Panic(err.to_string().into()),
+                                Err(err) => return RuntimeResult::Panic(lazy.fail(err.to_string())),
                             };
                             let mut lazy_lock = lazy.value.lock().unwrap();
                             match *lazy_lock {
@@ -145,7 +149,7 @@ fn force(
                         value.vm_push(&mut vm.current_context()).unwrap();
                         RuntimeResult::Return(Pushed::default())
                     }
-                    Err(err) => RuntimeResult::Panic(format!("{}", err).into()),
+                    Err(err) => RuntimeResult::Panic(lazy.fail(format!("{}", err))),
                 }
             }))
         }
@@ -167,20 +171,20 @@ fn force(
                 }
                 let ready = opt.as_ref().unwrap().1.clone();
                 let vm = vm.root_thread();
-                Either::Right(Either::Right(
-                    ready
-                        .map(move |_| {
-                            let lazy_lock = lazy.value.lock().unwrap();
-                            match *lazy_lock {
-                                Lazy_::Value(ref value) => {
-                                    vm.current_context().push(value);
-                                    Pushed::default()
-                                }
-                                _ => unreachable!(),
-                            }
-                        })
-                        .map(RuntimeResult::Return),
-                ))
+                Either::Right(Either::Right(ready.map(move |_| {
+                    let lazy_lock = lazy.value.lock().unwrap();
+                    match *lazy_lock {
+                        Lazy_::Value(ref value) => {
+                            vm.current_context().push(value);
+                            RuntimeResult::Return(Pushed::default())
+                        }
+                        Lazy_::Failed(ref err) => RuntimeResult::Panic(err.clone().into()),
+                        _ => unreachable!(),
+                    }
+                })))
+            }
+            Lazy_::Failed(ref err) => {
+                Either::Left(future::ready(RuntimeResult::Panic(err.clone().into())))
             }
             Lazy_::Value(ref value) => {
                 vm.current_context().push(value);
@@ -188,6 +192,22 @@ fn force(
             }
             _ => unreachable!(),
         },
+    }
+}
+
+impl<T> Lazy<T> {
+    /// Records that the computation failed and wakes the threads waiting for it. Without this
+    /// the value would stay a `Blackhole` forever and a force from another thread would never
+    /// return.
+    fn fail(&self, err: String) -> Error {
+        let mut lazy_lock = self.value.lock().unwrap();
+        if let Lazy_::Blackhole(_, ref mut waiting) = *lazy_lock {
+            if let Some((sender, _receiver)) = waiting.take() {
+                let _ = sender.send(());
+            }
+        }
+        *lazy_lock = Lazy_::Failed(err.clone());
+        Error::Message(err)
     }
 }
 
